@@ -12,6 +12,7 @@ for d,c in sorted(conf.items()):
     if not c.get('confirmed'): print('NOT CONFIRMED',d); continue
     parts=d.rstrip('/').split('/'); pid=parts[-2]; k=parts[-1].replace('change','')
     if 'seedout2' in d: k=str(int(k)+2)   # second round
+    if 'seedout3' in d: k=str(int(k)+4)   # third round
     dst=f'/verif/seeded/{pid}-{k}'
     os.makedirs(dst,exist_ok=True)
     shutil.copy(d+'/patch.diff',dst+'/patch.diff')
